@@ -168,13 +168,37 @@ def trivial(line, res):
 
 def search(tier, rng):
     n = 1500 if tier == 'quick' else 40000
+    # regression inputs of the repaired overflow defects (DESIGN.md section 6, known_findings.txt `fixed:` lines)
     yield 'p_total ellipse 0 0 320 240 S 1 1 3 1'
     yield 'p_total line 0 0 1000 700 S 0 1 30 1'
+    yield 'p_total tri -480 -1 240 909 1 422 S 0 1 1 2'
+    yield 'p_total image 3 3 10 10 7'
     for k in range(n):
         fam = FAMILIES[k % len(FAMILIES)]
         small = rng.random() < 0.35
         e = (lambda r: r.choice([0, 1, 2, 3, 63, 64, 65])) if small else eb
-        case = zoo_case(rng, fam, c=cb, e=e, maxw=0, absolute=True)
+        if fam in ('image', 'subimage') and rng.random() < 0.7:
+            # display-scale images (zoo_case caps them at 40 x 40); one dimension small to bound the work
+            w, h = (eb(rng), rng.choice([0, 1, 2, 3, 8])) if rng.random() < 0.5 else (rng.choice([0, 1, 2, 3, 8]), eb(rng))
+            case = J('image', cb(rng), cb(rng), w, h, rng.randrange(1000))
+            if fam == 'subimage':
+                case = J('subimage', cb(rng), cb(rng), w, h, rng.randrange(1000), rng.randrange(-3, w + 3), rng.randrange(-3, h + 3), eb(rng), eb(rng))
+        elif fam == 'text' and rng.random() < 0.7:
+            lhk = rng.randrange(2)
+            lhv = rng.choice([0, 1, 2, 63, 64, 65, 255, 256, 257, 1023, 1024]) if lhk == 0 else rng.choice([0, 1, 50, 100, 150, 399, 400])
+            case = J('text', cb(rng), cb(rng), rng.randrange(8), rng.randrange(3), rng.randrange(4), lhk, lhv, rng.randrange(16), rng.randrange(12))
+        elif fam in ('tri', 'poly') and rng.random() < 0.3:
+            # long, nearly parallel edges with wide strokes: the join determinants and miter lengths are largest here
+            x, y = cb(rng), cb(rng)
+            dx, dy = rng.choice([1024, -1024, 1000, 700]), rng.choice([1024, -1024, 1, -1, 3, 700])
+            pts = [(x, y), (max(-1024, min(1024, x + dx)), max(-1024, min(1024, y + dy))), (max(-1024, min(1024, x + rng.choice([-1, 0, 1, 2]))), max(-1024, min(1024, y + rng.choice([-2, -1, 1, 2]))))]
+            rng.shuffle(pts)
+            if fam == 'tri':
+                case = J('tri', *[v for p in pts for v in p], 'S', 0, 0, 0, 0)
+            else:
+                case = J('poly', 0, 0, 3, *[v for p in pts for v in p], 'S', 0, 0, 0, 0)
+        else:
+            case = zoo_case(rng, fam, c=cb, e=e, maxw=0, absolute=True)
         if ' S ' in case:
             head, _ = case.rsplit(' S ', 1)
             case = head + ' ' + J('S', rng.randrange(2), rng.randrange(2), rng.choice(W), rng.randrange(3))
